@@ -29,6 +29,12 @@ class Scratch:
             if name.endswith(".lock") or name == self.key or not os.path.isdir(p):
                 continue
             try:
+                age = time.time() - os.path.getmtime(os.path.join(p, ".state"))
+            except OSError:
+                age = time.time() - os.path.getmtime(p)
+            if age < 8 * 3600:
+                continue  # recently used by another /verif checkout (e.g. a `vp run` snapshot)
+            try:
                 fh = open(p + ".lock", "a")
                 fcntl.flock(fh, fcntl.LOCK_EX | fcntl.LOCK_NB)
             except OSError:
